@@ -250,6 +250,12 @@ fn c05() {
         let want = if fstr(&f).is_empty() { 3 } else { 4 };
         if seg.len() != want || (want == 4 && seg[3] != R::b64(fstr(&f).as_bytes())) { return wit(format!("C05 v{v}.local footer segment of the token for footer {:?} is not base64url(footer): {t}", f)); }
     }}}
+    // a footer must not be exchangeable for an implicit assertion of the same bytes (and vice versa)
+    for v in 3..=4u8 { for x in ["X", "kid-7", "{\"a\":1}"] {
+        if let Ok(t) = local::enc(v, 1, 2, "{\"a\":1}", &None, &Some(x.to_string()), false) { let t2 = format!("{t}.{}", R::b64(x.as_bytes()));
+            if local::dec(v, 1, &t2, &Some(x.to_string()), &None).is_ok() { return wit(format!("C05 v{v}.local token built with NO footer and assertion {x:?}, footer segment base64url({x:?}) appended, is accepted with expected footer {x:?} and no assertion")); } }
+        if let Ok(t) = local::enc(v, 1, 2, "{\"a\":1}", &Some(x.to_string()), &None, false) { let seg: Vec<&str> = t.split('.').collect(); let t2 = seg[..3].join(".");
+            if local::dec(v, 1, &t2, &None, &Some(x.to_string())).is_ok() { return wit(format!("C05 v{v}.local token built with footer {x:?} and no assertion, footer segment removed, is accepted with no expected footer and assertion {x:?}")); } } } }
     public_tamper();
 }
 #[cfg(feature = "main_set")]
@@ -267,6 +273,12 @@ fn c06() {
         if t.len() != t0.len() { return wit(format!("C06 v{v}.local token length depends on the implicit assertion {:?}: {} vs {}", i, t.len(), t0.len())); }
         if let Some(ix) = i { if ix.len() > 3 && t.contains(&R::b64(ix.as_bytes())) { return wit(format!("C06 v{v}.local token contains the assertion bytes")); } }
     }}}}
+    // a footer must not be exchangeable for an implicit assertion of the same bytes (and vice versa)
+    for v in 3..=4u8 { for x in ["X", "kid-7", "{\"a\":1}"] {
+        if let Ok(t) = local::enc(v, 1, 2, "{\"a\":1}", &None, &Some(x.to_string()), false) { let t2 = format!("{t}.{}", R::b64(x.as_bytes()));
+            if local::dec(v, 1, &t2, &Some(x.to_string()), &None).is_ok() { return wit(format!("C06 v{v}.local token built with NO footer and assertion {x:?}, footer segment base64url({x:?}) appended, is accepted with expected footer {x:?} and no assertion")); } }
+        if let Ok(t) = local::enc(v, 1, 2, "{\"a\":1}", &Some(x.to_string()), &None, false) { let seg: Vec<&str> = t.split('.').collect(); let t2 = seg[..3].join(".");
+            if local::dec(v, 1, &t2, &None, &Some(x.to_string())).is_ok() { return wit(format!("C06 v{v}.local token built with footer {x:?} and no assertion, footer segment removed, is accepted with no expected footer and assertion {x:?}")); } } } }
     // (footer, assertion) boundary shift
     for v in 3..=4u8 { let t = local::enc(v, 1, 2, "{}", &Some("ab".into()), &Some("cd".into()), false).unwrap_or_default();
         if local::dec(v, 1, &t, &Some("abc".into()), &Some("d".into())).is_ok() { return wit(format!("C06 v{v}.local boundary shift between footer and assertion accepted")); } }
@@ -594,6 +606,29 @@ fn c16() {
       let mut bad = t.clone(); bad.pop(); bad.push('A'); let _ = p.parse(lk(&bad), key); let wrong = lkv(PasetoSymmetricKey::<V4, Local>::from(key32(9))); let _ = p.parse(lk(&t), wrong);
       if CALLS.load(Ordering::SeqCst) != 0 { return wit("C16 a validator ran on a token that did not authenticate".into()); }
       let _ = p.parse(lk(&t), key); if CALLS.load(Ordering::SeqCst) != 1 { return wit(format!("C16 accepting validator ran {} times on a successful parse", CALLS.load(Ordering::SeqCst))); } }
+    { let (kp, pk) = R::ed_keypair(9); let (_kq, pq) = R::ed_keypair(10); let k64 = lkv(Key::<64>::from(kp)); let k32 = lkv(Key::<32>::from(pk)); let kother = lkv(Key::<32>::from(pq));
+      macro_rules! pubcase { ($V:ty, $name:expr) => {{
+          let mut b = GenericBuilder::<$V, Public>::default(); b.set_claim(SubjectClaim::from("alice"));
+          if let Ok(tp) = b.try_sign(&PasetoAsymmetricPrivateKey::<$V, Public>::from(k64)) {
+              let good = lkv(PasetoAsymmetricPublicKey::<$V, Public>::from(k32)); let wrong = lkv(PasetoAsymmetricPublicKey::<$V, Public>::from(kother));
+              let mut forged = tp.clone(); forged.pop(); forged.push(if tp.ends_with('A') { 'B' } else { 'A' });
+              let mut p = GenericParser::<$V, Public>::default(); p.validate_claim(SubjectClaim::from("alice"), &reject); CALLS.store(0, Ordering::SeqCst);
+              let r1 = p.parse(lk(&forged), good); let r2 = p.parse(lk(&tp), wrong);
+              if CALLS.load(Ordering::SeqCst) != 0 { return wit(format!("C16 GenericParser<{},Public>: a validator ran {} time(s) on tokens that did not authenticate (forged signature / wrong key)", $name, CALLS.load(Ordering::SeqCst))); }
+              for r in [r1, r2] { if let Err(e) = r { if !matches!(e, GenericParserError::CipherError { .. }) { return wit(format!("C16 GenericParser<{},Public>: an unauthenticated token is reported as {e:?} instead of a cipher error (claims were looked at first)", $name)); } } else { return wit(format!("C16 GenericParser<{},Public> accepts an unauthenticated token", $name)); } }
+          } }} }
+      pubcase!(V4, "V4"); pubcase!(V2, "V2");
+      let repo = std::env::args().nth(2).unwrap_or("/repo".into());
+      let (skf, pkf) = (std::fs::read(format!("{repo}/tests/v1_public_test_vectors_private_key.pk8")).or_else(|_| std::fs::read("/repo/tests/v1_public_test_vectors_private_key.pk8")), std::fs::read(format!("{repo}/tests/v1_public_test_vectors_public_key.der")).or_else(|_| std::fs::read("/repo/tests/v1_public_test_vectors_public_key.der")));
+      if let (Ok(sk), Ok(pkd)) = (skf, pkf) { let sk = lkv(sk); let pkd = lkv(pkd);
+          let mut b = GenericBuilder::<V1, Public>::default(); b.set_claim(SubjectClaim::from("alice"));
+          if let Ok(tp) = b.try_sign(&PasetoAsymmetricPrivateKey::<V1, Public>::from(&sk[..])) {
+              let good = lkv(PasetoAsymmetricPublicKey::<V1, Public>::from(&pkd[..]));
+              let mut forged = tp.clone(); forged.pop(); forged.push(if tp.ends_with('A') { 'B' } else { 'A' });
+              let mut p = GenericParser::<V1, Public>::default(); p.validate_claim(SubjectClaim::from("alice"), &reject); CALLS.store(0, Ordering::SeqCst);
+              let r1 = p.parse(lk(&forged), good);
+              if CALLS.load(Ordering::SeqCst) != 0 { return wit(format!("C16 GenericParser<V1,Public>: a validator ran {} time(s) on a token whose signature does not verify", CALLS.load(Ordering::SeqCst))); }
+              if let Err(e) = r1 { if !matches!(e, GenericParserError::CipherError { .. }) { return wit(format!("C16 GenericParser<V1,Public>: a forged token is reported as {e:?} instead of a cipher error")); } } else { return wit("C16 GenericParser<V1,Public> accepts a forged token".into()); } } } }
 }
 #[cfg(feature = "main_set")]
 fn c17() {
@@ -676,6 +711,17 @@ fn c02() { public_tamper(); c08();
         }}
     }
     let (kp, pk) = R::ed_keypair(9); let k64 = lkv(Key::<64>::from(kp)); let k32 = lkv(Key::<32>::from(pk));
+    // message sizes around block boundaries and long footers, both Ed25519 versions
+    for n in [4095usize, 4096, 4097, 5000, 12288, 12289, 65536, 70_000] { let m = "m".repeat(n);
+        let mut b = Paseto::<V4, Public>::builder(); b.set_payload(Payload::from(m.as_str()));
+        match b.try_sign(&PasetoAsymmetricPrivateKey::<V4, Public>::from(k64)) { Ok(t) => match Paseto::<V4, Public>::try_verify(&t, &PasetoAsymmetricPublicKey::<V4, Public>::from(k32), None, None) { Ok(p) if p == m => {}, o => return wit(format!("C02 v4.public round trip of a {n}-byte message fails: {:?}", o.map(|p| p.len()).map_err(|e| format!("{e:?}")))) }, Err(e) => return wit(format!("C02 v4.public try_sign of a {n}-byte message failed: {e:?}")) }
+        let mut b = Paseto::<V2, Public>::builder(); b.set_payload(Payload::from(m.as_str()));
+        match b.try_sign(&PasetoAsymmetricPrivateKey::<V2, Public>::from(k64)) { Ok(t) => match Paseto::<V2, Public>::try_verify(&t, &PasetoAsymmetricPublicKey::<V2, Public>::from(k32), None) { Ok(p) if p == m => {}, o => return wit(format!("C02 v2.public round trip of a {n}-byte message fails: {:?}", o.map(|p| p.len()).map_err(|e| format!("{e:?}")))) }, Err(e) => return wit(format!("C02 v2.public try_sign of a {n}-byte message failed: {e:?}")) } }
+    for n in [255usize, 256, 767, 768, 769, 1024, 1025, 4096, 9000] { let f = "F".repeat(n);
+        let mut b = Paseto::<V4, Public>::builder(); b.set_payload(Payload::from("{}")); b.set_footer(Footer::from(f.as_str()));
+        match b.try_sign(&PasetoAsymmetricPrivateKey::<V4, Public>::from(k64)) { Ok(t) => { if let Err(e) = Paseto::<V4, Public>::try_verify(&t, &PasetoAsymmetricPublicKey::<V4, Public>::from(k32), Some(Footer::from(f.as_str())), None) { return wit(format!("C02 v4.public round trip with a {n}-byte footer fails: {e:?}")); } } Err(e) => return wit(format!("C02 v4.public try_sign with a {n}-byte footer failed: {e:?}")) }
+        let mut b = Paseto::<V2, Public>::builder(); b.set_payload(Payload::from("{}")); b.set_footer(Footer::from(f.as_str()));
+        match b.try_sign(&PasetoAsymmetricPrivateKey::<V2, Public>::from(k64)) { Ok(t) => { if let Err(e) = Paseto::<V2, Public>::try_verify(&t, &PasetoAsymmetricPublicKey::<V2, Public>::from(k32), Some(Footer::from(f.as_str()))) { return wit(format!("C02 v2.public round trip with a {n}-byte footer fails: {e:?}")); } } Err(e) => return wit(format!("C02 v2.public try_sign with a {n}-byte footer failed: {e:?}")) } }
     let mut b = GenericBuilder::<V4, Public>::default(); b.set_claim(AudienceClaim::from("c"));
     for round in 0..2 { match b.try_sign(&PasetoAsymmetricPrivateKey::<V4, Public>::from(k64)) { Ok(t) => { let r = GenericParser::<V4, Public>::default().parse(&t, &PasetoAsymmetricPublicKey::<V4, Public>::from(k32)); if r.as_ref().map(|j| j["aud"] != "c").unwrap_or(true) { return wit(format!("C02 GenericBuilder/GenericParser<V4,Public> sign #{round}: {:?}", r.map_err(|e| e.to_string()))); } } Err(e) => return wit(format!("C02 GenericBuilder<V4,Public>::try_sign failed: {e}")) } }
     let mut pb = PasetoBuilder::<V2, Public>::default();
